@@ -8,6 +8,7 @@ use std::panic::{self, AssertUnwindSafe};
 
 mod amt;
 mod drv;
+mod fmtgen;
 use drv::*;
 use amt::*;
 
